@@ -344,6 +344,22 @@ Proof.
   intros [->|(code & NZ & ->)]; cbn; [reflexivity|]. rewrite N.eqb_refl. cbn. destruct code; [congruence|reflexivity].
 Qed.
 
+Definition dropped_of (id : bytes) (h : hev) : list bytes :=
+  match h with HDropped i pl => if beq_bytes i id then [pl] else [] | _ => [] end.
+Definition unsub_of (id : bytes) (h : hev) : list bytes :=
+  match h with HUnsub i f => if beq_bytes i id then [f] else [] | _ => [] end.
+
+Lemma clean_hooks_lists e (subs : list (bytes * N)) (infl : list msg) :
+  flat_map (dropped_of e) (map (fun fq => HUnsub e (fst fq)) subs ++ map (fun m => HDropped e (m_payload m)) infl) = map m_payload infl /\
+  flat_map (unsub_of e) (map (fun fq => HUnsub e (fst fq)) subs ++ map (fun m => HDropped e (m_payload m)) infl) = map fst subs.
+Proof.
+  rewrite !flat_map_app. split.
+  - assert (A : flat_map (dropped_of e) (map (fun fq => HUnsub e (fst fq)) subs) = []) by (induction subs; cbn; auto).
+    rewrite A. cbn [app]. induction infl as [|m r IH]; cbn; [reflexivity|]. rewrite bb_refl. cbn. f_equal. exact IH.
+  - assert (A : flat_map (unsub_of e) (map (fun m => HDropped e (m_payload m)) infl) = []) by (induction infl; cbn; auto).
+    rewrite A, app_nil_r. induction subs as [|fq r IH]; cbn; [reflexivity|]. rewrite bb_refl. cbn. f_equal. exact IH.
+Qed.
+
 Lemma sp_clause_ok (cleanp cleane : bool) (ver sei : N) :
   negb cleanp && ((ver <? 5) && negb cleane || (ver =? 5) && (0 <? sei)) && negb (negb (cleanp || cleane && (ver <? 5)))
   || (cleanp || (ver <? 5) && cleane) && negb (cleanp || cleane && (ver <? 5)) = false.
@@ -366,10 +382,10 @@ Proof.
   intros [[W X] CL FR].
   pose proof (step_shape k s o (wf_used s W)) as SH.
   pose proof (step_inv k s o (conj W X)) as INV'.
-  unfold tstep_of, obs_of. cbn [t_op t_outs t_pre t_post].
+  unfold tstep_of, obs_of. cbn [t_op t_outs t_hooks t_pre t_post].
   destruct (step k s o) as [s' outs] eqn:STEP. cbn [fst snd] in *.
   destruct SH as (W'u & EVX & SH).
-  unfold m14_step. cbn [b_outs b_op b_pre b_post fst snd].
+  unfold m14_step. cbn [b_outs b_op b_hooks b_pre b_post fst snd].
   destruct (is_new_conn s o) as [c|] eqn:NEW.
   - (* a new connection *)
     destruct SH as (U & HS & _).
@@ -500,6 +516,23 @@ Proof.
         { destruct (cp_clean p) eqn:CP; [|reflexivity]. assert (SPF : sp = false) by (rewrite ESP; reflexivity).
           destruct (SUBS0 SPF) as [A1 A2]. rewrite N.eqb_refl, A1, A2, (NOIX SPF). reflexivity. }
         rewrite V3. cbn [app].
+        (* the hook reports for the discarded session *)
+        assert (HK : hook_events k s (OConnect c now p true e) =
+                     if cp_clean p || (o_clean eo && (o_ver eo <? 5)) then
+                       map (fun fq => HUnsub e (fst fq)) (o_subs eo) ++ map (fun m => HDropped e (m_payload m)) (o_infl eo)
+                     else []).
+        { cbn [hook_events]. rewrite CF, T, V. cbn [orb negb N.eqb]. unfold client_of. rewrite A, G. reflexivity. }
+        assert (V5 : (if cp_clean p || (o_ver eo <? 5) && o_clean eo then
+                        if msubB (map m_payload (o_infl eo)) (flat_map (dropped_of e) (hook_events k s (OConnect c now p true e))) &&
+                           subB (map fst (o_subs eo)) (flat_map (unsub_of e) (hook_events k s (OConnect c now p true e)))
+                        then [] else [mkv V14_clean_hooks i c e]
+                      else []) = []).
+        { rewrite HK. rewrite (andb_comm (o_ver eo <? 5) (o_clean eo)).
+          destruct (cp_clean p || o_clean eo && (o_ver eo <? 5)); [|reflexivity].
+          destruct (clean_hooks_lists e (o_subs eo) (o_infl eo)) as [DD UU]. rewrite DD, UU, msubB_refl, subB_refl. reflexivity. }
+        change (fun h : hev => match h with HDropped i0 pl => if beq_bytes i0 e then [pl] else [] | HUnsub _ _ => [] end) with (dropped_of e).
+        change (fun h : hev => match h with HDropped _ _ => [] | HUnsub i0 f => if beq_bytes i0 e then [f] else [] end) with (unsub_of e).
+        rewrite V5. cbn [app].
         (* the previous holder *)
         assert (V4 : (if o_open eo && negb (ec =? c) then
                         if (if o_ver eo =? 5 then match pkts_to ec (o1 ++ [OPkt c (PConnack 0 sp)] ++ resend c l) with [PDisconnect 142] => true | _ => false end
